@@ -281,6 +281,10 @@ class Evaluator(object):
             return ("min", args[0], args[1])
         if is_(("cmp::Ord::max", "cmp::max")) and len(args) == 2:
             return ("max", args[0], args[1])
+        if is_(("cmp::Ord::cmp", "Ord::cmp")) and len(args) == 2:
+            return ("ordcmp", args[0], args[1])
+        if is_(("PartialOrd::partial_cmp",)) and len(args) == 2:
+            return ("agg", "core::option::Option", "Some", (("0", ("ordcmp", args[0], args[1])),))
         for nm, op in (("PartialOrd::lt", "Lt"), ("PartialOrd::le", "Le"), ("PartialOrd::gt", "Gt"), ("PartialOrd::ge", "Ge"),
                        ("PartialEq::eq", "Eq"), ("PartialEq::ne", "Ne")):
             if is_((nm,)) and len(args) == 2:
@@ -698,6 +702,9 @@ class World(object):
 
     def holds(self, cond):
         e, out = cond
+        if e[0] == "variant" and e[1][0] == "ordcmp":
+            a, b = self.int(e[1][1]), self.int(e[1][2])
+            return ("Less" if a < b else ("Equal" if a == b else "Greater")) in out
         if e[0] == "variant":
             return self.v[e[1]] in out
         if isinstance(out, bool):
@@ -744,6 +751,11 @@ class Table(object):
         self.bools = [b for b in self.bools if not (b[0] == "is" and b[1] in self.vars)]
 
     def _scan_cond(self, e, out, vu):
+        if e[0] == "variant" and e[1][0] == "ordcmp":
+            self._scan_int(e[1][1])
+            self._scan_int(e[1][2])
+            self.pairs.append((e[1][1], e[1][2]))
+            return
         if e[0] == "variant":
             s = self.vars.setdefault(e[1], set())
             s |= set(out)
